@@ -1354,6 +1354,16 @@ def c12_sites(repo_root, tier):
     fn = em.find("Identifier.as_source") if em else None
     ok = fn is not None and "if is_token_type(self.token, TokenType.WORD):\n    return str(self)" in ast.unparse(fn).replace("\n        ", "\n    ")
     _ob(obs, "liquid2.builtin.expressions:Identifier.as_source/site.bare-only-if-word", ok, "an identifier is printed bare only if it was lexed as a WORD token; otherwise quoted with backslash and quote escaped")
+    # (g) PathToken.__str__ (used when a {% liquid %} tag is serialised): a string segment is written in dotted form only if the
+    #     *whole* segment is a property name, otherwise in bracket-quote form
+    tkm = repo.module("liquid2.token")
+    fn = tkm.find("PathToken.__str__") if tkm else None
+    okp = False
+    if fn is not None:
+        tests = [ast.unparse(n.test) for n in ast.walk(fn) if isinstance(n, ast.If)]
+        srcp = ast.unparse(fn)
+        okp = any(t.startswith("RE_PROPERTY.fullmatch(") for t in tests) and not any("RE_PROPERTY.match(" in t or "RE_PROPERTY.search(" in t for t in tests) and "!r}]" in srcp
+    _ob(obs, "liquid2.token:PathToken.__str__/site.segment-quoting", okp, "a path segment is printed as .name only when RE_PROPERTY.fullmatch(segment); anything else as ['...']")
     # (f) pickling: a class whose __new__ takes required keyword-only arguments tells pickle about them (the default protocol
     #     re-creates the object with cls.__new__(cls, *args) only); node and expression classes are plain slotted objects
     for m in repo.all_modules():
@@ -1805,3 +1815,24 @@ def c17_probe(repo_root, tier):
             backend="bounded-native")
     return {"obligations": obs, "samples": [], "trusted": [], "functions": [], "assumptions": [],
             "bounded": ["liquid2/bounded.native-error-position-probe: LiquidError._error_context against an independent line/column reference on a fixed set of texts, every index (pyvc/probe_c17.py); bounded, not counted as proved"]}
+
+
+
+# --------------------------------------------------------------------------- C10 / C01: obligations shared with C07 and C03
+@register("C10")
+def c10_scope_sites(repo_root, tier):
+    """Lookup precedence presupposes the scope-stack discipline of C07: the stack is pushed and popped only by extend(), and a
+    generator that binds lambda parameters keeps every yield inside `with context.extend(..)`."""
+    r = c07_sites(repo_root, tier)
+    obs = [o for o in r["obligations"] if "scope-push-pop" in o["oid"] or "generator-scope" in o["oid"] or "scoped-with" in o["oid"]]
+    return {"obligations": obs, "samples": [], "trusted": [], "functions": [], "assumptions": []}
+
+
+@register("C01")
+def c01_twin(repo_root, tier):
+    """Rendering semantics hold on the async path because every node's render_to_output_async and every expression's
+    evaluate_async is the await-erasure of its sync twin (the C03 obligations for those pairs)."""
+    from .twin import run_twin
+    tw = run_twin(repo_root, tier)
+    obs = [o for o in tw["obligations"] if o["oid"].endswith("/twin") and (".render_to_output/" in o["oid"] or ".evaluate/" in o["oid"] or ".render/" in o["oid"])]
+    return {"obligations": obs, "samples": [], "trusted": [], "functions": [], "assumptions": []}
